@@ -263,11 +263,12 @@ Inductive call :=
 | CRevise (cur : rev) (num : N) (vs ms : list N)
 | CClearingRev (cur : rev) (vs : list N)
 | CInitial (fc : rev) (other uc : N)
-  (* rhp/v2/rpc.go rpcSectorRoots up to the point where the revision is handed to the contract
-     manager: the locked contract must be revisable, the candidate is Revise(current, renter's
-     number and values) and must pass ValidateRevision(cost, no collateral); [cost] is core's
-     RPCSectorRootsCost total, computed by the harness *)
-| HSectorRoots (cur : rev) (num : N) (vs ms : list N) (cost : N)
+  (* rhp/v2/rpc.go rpcSectorRoots / rpcRead / rpcWrite up to the point where the revision is
+     handed to the contract manager: the locked contract must be revisable, the candidate is
+     Revise(current, renter's number and values) and must pass ValidateRevision(cost, collateral);
+     [cost]/[coll] are core's RPC*Cost totals (collateral 0 for sector roots and read), computed
+     by the harness with core's functions *)
+| HRevision (cur : rev) (num : N) (vs ms : list N) (cost coll : N)
   (* rhp/v3/payments.go processContractPayment up to the point where the account is credited:
      the candidate is Revise(current, renter's number and values), the amount is what the
      renter's valid payout loses, and the candidate must pass ValidatePaymentRevision(amount) *)
@@ -285,10 +286,10 @@ Definition run (c : call) : res outv :=
   | CRevise cur n vs ms => do r <- revise cur n vs ms; Ok (ORev r)
   | CClearingRev cur vs => do r <- clearing_revision cur vs; Ok (ORev r)
   | CInitial fc o u => Ok (ORev (initial_revision fc o u))
-  | HSectorRoots cur n vs ms cost =>
+  | HRevision cur n vs ms cost coll =>
       if rnum cur =? max64 then bad else
       do r <- revise cur n vs ms;
-      do x <- validate_revision cur r cost 0;
+      do x <- validate_revision cur r cost coll;
       Ok (OCur2 (fst x) (snd x))
   | HPayByContract cur n vs ms =>
       do r <- revise cur n vs ms;
